@@ -44,6 +44,7 @@ func init() {
 type luaScriptSpec struct {
 	Kind string `json:"kind"`                // plain | ro | nosha | ro-nosha | retryable | nosha-retryable
 	Load bool   `json:"load_sha1,omitempty"` // WithLoadSHA1(true)
+	Fail bool   `json:"fail,omitempty"`      // the body ends with an error reply of its own (see luaSource)
 }
 
 type luaX struct {
@@ -72,11 +73,17 @@ func luaXOf(p *Plan) (x luaX, err error) {
 }
 
 // luaSource is the text of script i. The leading comment makes the SHA of every Lua object of a run distinct.
-func luaSource(i int, ro bool) string {
-	if ro {
-		return fmt.Sprintf("-- L%d\nlocal n = redis.call('LLEN', KEYS[1])\nreturn {ARGV[1], n}", i)
+func luaSource(i int, ro bool, fail ...bool) string {
+	ret := "return {ARGV[1], n}"
+	if len(fail) > 0 && fail[0] {
+		// a body that does its work and then answers with an error of its own, whose text mentions NOSCRIPT somewhere
+		// in the middle: an ordinary error reply, not the server's "script not cached"
+		ret = "return redis.error_reply('ERR refused ' .. ARGV[1] .. ' after ' .. n .. ': mode NOSCRIPT is not supported')"
 	}
-	return fmt.Sprintf("-- L%d\nlocal n = redis.call('RPUSH', KEYS[1], ARGV[1])\nreturn {ARGV[1], n}", i)
+	if ro {
+		return fmt.Sprintf("-- L%d\nlocal n = redis.call('LLEN', KEYS[1])\n%s", i, ret)
+	}
+	return fmt.Sprintf("-- L%d\nlocal n = redis.call('RPUSH', KEYS[1], ARGV[1])\n%s", i, ret)
 }
 
 func luaNodeCount(x luaX) int {
@@ -126,6 +133,7 @@ func genLuaExec(seed uint64, tier, variant string) any {
 		if x.Race {
 			sp = luaScriptSpec{Kind: pick(r, "plain", "ro", "retryable"), Load: r.IntN(5) != 0}
 		}
+		sp.Fail = r.IntN(6) == 0
 		x.Scripts = append(x.Scripts, sp)
 		if r.IntN(3) == 0 {
 			for n := 0; n < nodes; n++ {
@@ -501,7 +509,7 @@ func luaRun(t *testing.T, seed uint64, p *Plan, x luaX, out *Outcome) *luaEnv {
 			}
 			le.addrs = s.W.NodeAddrs()
 			for i, sp := range x.Scripts {
-				src := luaSource(i, sp.readOnly())
+				src := luaSource(i, sp.readOnly(), sp.Fail)
 				var opts []LuaOption
 				if sp.Load {
 					opts = append(opts, WithLoadSHA1(true))
@@ -529,7 +537,7 @@ func luaRun(t *testing.T, seed uint64, p *Plan, x luaX, out *Outcome) *luaEnv {
 			}
 			for _, pl := range x.Preload {
 				if pl[0] >= 0 && pl[0] < len(x.Scripts) && pl[1] >= 0 {
-					s.W.Ghost(le.addrs[pl[1]%len(le.addrs)], "SCRIPT", "LOAD", luaSource(pl[0], x.Scripts[pl[0]].readOnly()))
+					s.W.Ghost(le.addrs[pl[1]%len(le.addrs)], "SCRIPT", "LOAD", luaSource(pl[0], x.Scripts[pl[0]].readOnly(), x.Scripts[pl[0]].Fail))
 				}
 			}
 			le.obs = make([][]*luaObs, len(p.Tasks))
